@@ -17,7 +17,8 @@ EXPLANATION = (
     "variants. CONST: inflateBackInit_ builds a window of exactly 1 << windowBits after the [8,15] test. ABORT: inventory from "
     "inflateBack*. Exit codes: BufError on input exhaustion/output failure, StreamEnd in Done, DataError in Bad. Byte equality with "
     "inflate is not decided. "
-    "GUARD/fast-bit-budget for inflate_fast_back (refill threshold 28 before the distance decode). WHO/overlap-safe-copy: copy_match_back uses no block copy (copy_within, ptr::copy, copy_from_slice) outside a length <= distance guard - overlapping matches are replicated byte by byte.")
+    "GUARD/fast-bit-budget for inflate_fast_back (refill threshold 28 before the distance decode). WHO/overlap-safe-copy: copy_match_back uses no block copy (copy_within, ptr::copy, copy_from_slice) outside a length <= distance guard - overlapping matches are replicated byte by byte. "
+    "CUT/back-entry-reset: Window::clear, mode = Type and the last-flag update lie on every path into back()'s mode loop. SIB/ref-writes for inflateBack.")
 
 CLAIM = dict(
     text="Static sibling agreement of back()/inflate_fast_back() with inflate's decoder copies over a common rejection "
